@@ -645,9 +645,18 @@ func (p *printer) stmt(s *S) {
 				p.w("_ = " + v)
 				p.nl()
 			}
+			// the body is a block of its own: it may declare the key's name again
+			p.indent()
+			p.w("{")
+			p.nl()
+			p.ind++
 			for _, b := range s.Body {
 				p.stmt(b)
 			}
+			p.ind--
+			p.indent()
+			p.w("}")
+			p.nl()
 			p.ind--
 			p.indent()
 			p.w("}")
